@@ -69,6 +69,7 @@ def gen_case(rng, malformed=False):
     iids = gen_ids(rng, kind_i, ni + 1)
     schema = {"rating": rng.chance(2, 3), "timestamp": rng.chance(1, 2), "extra": rng.chance(1, 4)}
     case = {"kind_u": kind_u, "kind_i": kind_i, "uids": uids, "iids": iids, "schema": schema,
+            "ts_kind": rng.choice(["int", "datetime"]),      # Arrow type of the timestamp column: int64 or timestamp[s]
             "allow_repeats": rng.chance(1, 5), "style": "malformed" if malformed else "valid"}
     users, items = uids[:nu], iids[:ni]
     if not malformed and rng.chance(1, 4):
@@ -179,7 +180,7 @@ def gen_case(rng, malformed=False):
 
 
 def gen_cases(rng, tier):
-    n = 900 if tier == "quick" else 6000
+    n = 900 if tier == "quick" else 4000
     return [gen_case(rng.fork(k), malformed=(k % 6 == 5)) for k in range(n)]
 
 
@@ -275,7 +276,7 @@ def _frame(case, rows, style):
     if case["schema"]["rating"]:
         cols["rating"] = pa.array([r[2] / 2 for r in rows], type=pa.float64())
     if case["schema"]["timestamp"]:
-        cols["timestamp"] = pa.array([r[3] for r in rows], type=pa.int64())
+        cols["timestamp"] = pa.array([r[3] for r in rows], type=pa.int64() if case.get("ts_kind", "int") == "int" else pa.timestamp("s"))
     if case["schema"]["extra"]:
         cols["extra"] = pa.array([r[4] for r in rows], type=pa.int64())
     tbl = pa.table(cols)
@@ -325,7 +326,12 @@ def _apply(dsb, case, o, k):
                 rem = pa.table({"item_id": _ids_array(case["kind_i"], vals, "arrow")})
             if k % 2 and len(vals):
                 rem = rem.to_pandas()
-        dsb.filter_interactions("rating", min_time=o["lo"], max_time=o["hi"], remove=rem)
+        lo, hi = o["lo"], o["hi"]
+        if case.get("ts_kind", "int") == "datetime" and k % 2:
+            import datetime as dt
+            lo = None if lo is None else dt.datetime(1970, 1, 1) + dt.timedelta(seconds=lo)
+            hi = None if hi is None else dt.datetime(1970, 1, 1) + dt.timedelta(seconds=hi)
+        dsb.filter_interactions("rating", min_time=lo, max_time=hi, remove=rem)
     elif o["op"] == "clear":
         dsb.clear_relationships("rating")
     else:
@@ -346,8 +352,25 @@ def _attr_vals(case, cols, getter, n):
                         raise ValueError(f"rating {v} is not a multiple of 1/2")
                     out[k].append(int(f))
                 else:
-                    out[k].append(int(v))
+                    out[k].append(_int(v))
     return out
+
+
+def _int(v):
+    "an integer attribute value; date-times (timestamp-typed columns) as seconds since the epoch"
+    if isinstance(v, bool):
+        raise ValueError("boolean where an integer was expected")
+    if isinstance(v, int):
+        return v
+    if isinstance(v, float) or (hasattr(v, "dtype") and v.dtype.kind in "fiu"):
+        f = Fraction(float(v))
+        if f.denominator != 1:
+            raise ValueError(f"value {v} is not an integer")
+        return int(f)
+    ns = pd.Timestamp(v).value
+    if ns % 10 ** 9:
+        raise ValueError(f"time {v} is not a whole second")
+    return ns // 10 ** 9
 
 
 def _tab(case, cols, getter, ucol, icol, conv_u=int, conv_i=int):
@@ -365,13 +388,7 @@ def _vals(field, data):
                 raise ValueError(f"value {v} is not a multiple of 1/2")
             out.append(int(f))
         return out
-    out = []
-    for v in data:
-        f = Fraction(float(v))
-        if f.denominator != 1:
-            raise ValueError(f"value {v} is not an integer")
-        out.append(int(f))
-    return out
+    return [_int(v) for v in data]
 
 
 def _py(x):
@@ -507,7 +524,7 @@ def run_impl(case):
                     rp = [int(r["rating_count"]), None if pd.isna(mean) else fjson(frac_of_float(mean))]
                 if "first_time" in st.columns:
                     ft, lt = r["first_time"], r["last_time"]
-                    tp = [None if pd.isna(ft) else int(ft), None if pd.isna(lt) else int(lt)]
+                    tp = [None if pd.isna(ft) else _int(ft), None if pd.isna(lt) else _int(lt)]
                 rows.append([int(r["record_count"]), int(r[other]), int(r["count"]), rp, tp])
             V.append(["stats", cls, idx, rows])
 
@@ -908,6 +925,8 @@ def counters(case, obs):
     yield "ids=" + case["kind_u"] + "/" + case["kind_i"]
     yield "build=" + str(obs["build"])
     yield "attrs=" + ",".join(attr_names(case))
+    if case["schema"]["timestamp"]:
+        yield "timestamp-type=" + case.get("ts_kind", "int")
     ops = ops_of(case)
     yield "ops=" + str(min(len(ops), 9))
     for o, l in zip(ops, obs["log"] or [[None]] * len(ops)):
